@@ -60,7 +60,7 @@ Theorem step_keys gs es q c :
 Proof.
   assert (R : incl (keys c) (keys c) /\ (forall k, In k (keys c) -> In k (keys c) \/ key_of_filtering_engine es k))
     by (split; [apply incl_refl | auto]).
-  destruct q as [e i j|e h p|e h p|gm ch pa f ind nc ec names eattr|i j a b d|i j|i j ud fa a b d|fn ch pa o|r|mp e [i|] [j|]|t1 t2 i j ud fa a b d];
+  destruct q as [e i j|e h p|e h p|gm ch pa f ind nc ec names eattr|i j a b d|i j|i j ud fa a b d|fn ch pa o|r|mp e [i|] [j|]|t1 t2 i j ud fa a b d|h p na ea thr];
     simpl; try exact R.
   - pose proof (isomorphic_keys (enth es e) i (gnth gs i) j (gnth gs j) c) as (A & B).
     destruct (isomorphic vf2b (enth es e) i (gnth gs i) j (gnth gs j) c) as [b c']. simpl in *. split; auto.
